@@ -9,8 +9,12 @@
                         character decides the error.
    * `ref_display`/`ref_from_str`   rbx_types/src/referent.rs  (Display `{:032x}`, FromStr `u128::from_str_radix`)
    * `uid_display`/`uid_from_str`   rbx_types/src/unique_id.rs (Display `{:016x}{:08x}{:08x}` of random, time,
-                        index; FromStr: 32 ASCII BYTES, then `&s[0..16]` as u64 pattern, `&s[16..24]`, `&s[24..32]`;
-                        `uid_from_str_pre_fix` is the code before /repo commit 680c0119).
+                        index; FromStr: `s.len() == 32 && s.is_ascii()` (BYTES), then
+                        `u64::from_str_radix(&s[0..16], 16)? as i64`, `&s[16..24]`, `&s[24..32]` as u32 -- a str slice
+                        panics when an end is not a char boundary: the model keeps that check and
+                        HexFacts.uid_from_str_no_panic shows that the ASCII guard makes it unreachable).
+                        `uid_from_str_pinned` is the code before /repo commit 680c0119 (no ASCII guard,
+                        `i64::from_str_radix`), kept for the refutation witnesses.
    Strings are byte lists (the UTF-8 bytes of the Rust `&str`).  Definitions only; lemmas and the round-trip
    theorems are in Proofs/HexFacts.v. *)
 From RbxVerif Require Export Base Bytes.
@@ -106,22 +110,27 @@ Definition slice (s : bytes) (a b : nat) : bytes := firstn (b - a) (skipn a s).
 (* str::is_ascii *)
 Definition is_ascii (s : bytes) : bool := forallb (fun b => b <? 128) s.
 
-(* UniqueId::from_str as of /repo commit 680c0119: `s.len() == 32 && s.is_ascii()`, else FromStrBadLen; the random
-   field is parsed as its 64-bit pattern (`u64::from_str_radix(..) as i64`); fields are evaluated in the order
-   written in the struct literal: random, time, index.  ASCII input makes every byte offset a char boundary,
-   so the slices cannot panic. *)
+(* UniqueId::from_str as of /repo commit 680c0119 (and HEAD): `s.len() == 32 && s.is_ascii()`, else FromStrBadLen.
+   Fields are evaluated in the order written in the struct literal: random, time, index.  `random` is read as the
+   64-bit pattern that Display printed (`u64::from_str_radix`) and reinterpreted (`as i64` = wrap_s 64).  The
+   `&s[a..b]` slices keep their char-boundary panic (Rust semantics of str indexing); after the `is_ascii` guard
+   no boundary test can fail: HexFacts.uid_from_str_no_panic. *)
 Definition uid_from_str (s : bytes) : res (N * N * Z) :=
   if Nat.eqb (length s) 32 && is_ascii s then
+    if negb (is_char_boundary s 16) then Panic else
     random <- parse_hex_u 64 (slice s 0 16) ;;
+    if negb (is_char_boundary s 24) then Panic else
     time <- parse_hex_u 32 (slice s 16 24) ;;
     index <- parse_hex_u 32 (slice s 24 32) ;;
     Ok (index, time, wrap_s 64 random)
   else Err ERR_UID_LEN.
 
-(* the code BEFORE that commit (kept for the record, with its refutation in HexFacts; not compared with the
-   implementation any more): length check only, `i64::from_str_radix` for random, and a str slice that panics
-   when an end is not a char boundary *)
-Definition uid_from_str_pre_fix (s : bytes) : res (N * N * Z) :=
+(* UniqueId::from_str BEFORE /repo commit 680c0119 (the pinned code the framework was first run on): the length
+   test was `s.len() == 32` alone and `random` was parsed with `i64::from_str_radix`.  Two defects, both witnessed
+   in HexFacts: every negative `random` fails to parse back (uid_text_negative_fails, uid_text_refuted), and a
+   32-byte string with a multi-byte character across byte 16 or 24 panics (uid_pinned_panics).  Kept for the
+   record only: not extracted, not compared with the implementation, not used by any other model. *)
+Definition uid_from_str_pinned (s : bytes) : res (N * N * Z) :=
   if Nat.eqb (length s) 32 then
     if negb (is_char_boundary s 16) then Panic else
     random <- parse_hex_i64 (slice s 0 16) ;;
